@@ -7,10 +7,13 @@ MODULES = ["TLVerif.Props.C22"]
 THEOREMS = ["TLVerif.Props.C22." + t for t in [
     "canonical_print_core_only", "print_visible_only", "canonical_idempotent_of_roundtrip",
     "default_idempotent_of_visible_roundtrip", "wOne_parsed", "wDep_parsed", "roundtrip_fails_at_one_variant_union",
-    "roundtrip_fails_at_dep_name", "statement_fails", "witnesses_outside_guard"]]
+    "roundtrip_fails_at_dep_name", "statement_fails", "witnesses_outside_guard",
+    "type_roundtrip_tokens", "fields_roundtrip_tokens", "struct_roundtrip_tokens"]]
 SOURCES = ["TLVerif.Syntaxtl2.Basic", "TLVerif.Syntaxtl2.Lexer", "TLVerif.Syntaxtl2.Text", "TLVerif.Syntaxtl2.Ast",
            "TLVerif.Syntaxtl2.Parser", "TLVerif.Syntaxtl2.Format", "TLVerif.Syntaxtl2.Driver",
-           "TLVerif.Syntaxtl2.FormatLemmas"]
+           "TLVerif.Syntaxtl2.FormatLemmas", "TLVerif.Syntaxtl2.RoundTripLemmas", "TLVerif.Syntaxtl2.StripLemmas",
+           "TLVerif.Syntaxtl2.FieldLemmas", "TLVerif.Syntaxtl2.VariantLemmas", "TLVerif.Syntaxtl2.UnionLemmas",
+           "TLVerif.Syntaxtl2.StructLemmas"]
 
 # witnesses of the two known findings (known_findings.d/C22.json is keyed by these lines)
 W_DEP = "syntaxtl2.fmt c " + hx(b"a = _x:int;\n")
